@@ -390,7 +390,7 @@ def sim_case(draw, sims=SIMS, nmax=25, labels=('int', 'perm', 'str', 'tuple'), f
     directed = sim == 'Gillespie_simple_contagion' and draw(st.booleans())
     small = draw(st.integers(0, 3)) == 0
     gc = draw(gen.graph_case(1, 4 if small else nmax, labels=labels, weighted=True, directed=directed,
-                             selfloops=(KIND[sim] != 'generic')))     # self-loops are handled explicitly by the SIR/SIS simulators
+                             selfloops=(sim != 'Gillespie_complex_contagion')))     # a node does not act on itself: self-loops are ignored
     nodes = gc['nodes']
     n = len(nodes)
     allow_R = sim in HAS_R0 if force_R0 is None else (force_R0 and sim in HAS_R0)
